@@ -90,6 +90,49 @@ def group_predicate(res, base, rs):
     return nt
 
 
+def server_contexts(res, rnd, nbases):
+    from srv import build_binaries, make_dictionary, Server, workdir, cleanup
+    from checks.server_common import entry_line, ALPHABET
+    okb, blog = build_binaries()
+    if not okb:
+        res.tie_broken("the server no longer builds with the hooks", blog[-800:])
+        return 0
+    n = 0
+    wd = workdir("c16")
+    try:
+        for bi in range(nbases):
+            d, alpha = gen_dict(rnd, True)
+            # chokan-dic conjugates entries; keep to speeches whose only form is the entry itself
+            for w in d["std"] + d["anc"]:
+                if w[2] in ("Adjective", "AdjectivalVerb") or (isinstance(w[2], dict) and "Verb" in w[2]):
+                    w[2] = {"Noun": "Common"}
+            ent = lambda w: {"reading": w[0], "stem": w[1], "speech": w[2]}
+            try:
+                dat = make_dictionary(wd, [entry_line(ent(w)) for w in d["std"]], [entry_line(ent(w)) for w in d["anc"]], [], name=f"d{bi}.dat")
+            except Exception:
+                continue
+            s = Server(dat)
+            try:
+                for _ in range(4):
+                    inp = gen_input(rnd, d, alpha, 6)
+                    lib = harness([{"op": "kkc_texts", "dict": d, "context": c, "freq": [], "input": inp, "n": 100} for c in CONTEXTS])
+                    for c, l in zip(CONTEXTS, lib):
+                        if c == "Proper":
+                            st, r = s.call("GetProperCandidates", {"input": inp})
+                        else:
+                            st, r = s.call("GetCandidates", {"input": inp, "context": {"kind": c}})
+                        n += 1
+                        got = [x["candidate"] for x in r["candidates"]] if st == "ok" else None
+                        if got != l.get("ok"):
+                            res.violation(f"the server's {c} entry point answers {inp!r} with {got}, the engine under context {c} gives {l.get('ok')}",
+                                          {"kind": "server_context", "query": {"dict": d, "input": inp, "freq": []}, "context": c})
+            finally:
+                s.stop()
+    finally:
+        cleanup(wd)
+    return n
+
+
 def run(tier, seed):
     res = Result(PROP, tier, seed)
     rnd = random.Random(seed)
@@ -123,6 +166,9 @@ def run(tier, seed):
         group = {ctx: rs[4 * i + j] for j, ctx in enumerate(CONTEXTS)}
         nontrivial += 1 if group_predicate(res, b, group) else 0
     n_model = model_correspondence(res, PROP, qs, rs)
+    # the server's four entry points (GetCandidates with kind Normal / ForeignWord / Numeral, GetProperCandidates) must reach
+    # the library under the context they name
+    n_srv = server_contexts(res, rnd, 3 if tier == "quick" else 30)
     cov = {
         "obligations": info["obligations"], "discharged": info["discharged"],
         "checker_cmd": f"cd /verif/coq && make Props/C16.vo + Print Assumptions on {len(thms)} theorems",
@@ -131,7 +177,7 @@ def run(tier, seed):
         "evaluations": len(qs), "distinct_nontrivial": nontrivial,
         "rule": "every (dictionary, input, learned counts) is converted under all four contexts with n = 10^6 and compared pairwise; learned counts are mirrored in every context; "
                 "non-trivial = the four contexts do not all return the same list",
-        "traces_validated_against_impl": n_model,
+        "traces_validated_against_impl": n_model, "server_entry_point_queries": n_srv,
         "input_distribution": stats(qs, rs),
         "samples": [{"input": b["input"], "anc": b["dict"]["anc"][:5], "texts": {c: [x["text"] for x in rs[4 * i + j].get("candidates", [])][:4] for j, c in enumerate(CONTEXTS)}} for i, b in list(enumerate(bases))[12:15]],
         "refuted_statement": "C16_added_begin_with_suffix_refuted (known finding F10); everything else of the property is proved: C16_proper_same_lattice, C16_proper_same_edges, C16_proper_bonus, C16_proper_same_set, C16_adds_only, C16_no_ancillary_head",
